@@ -12,8 +12,8 @@ typedef struct bx_prng_s { unsigned long idx; } bx_prng;
 typedef struct bx_string_s { const char *s; unsigned long n; } bx_string;
 struct particle;
 typedef struct bx_vec_particle_s { struct particle *data; unsigned long size; unsigned long cap; } bx_vec_particle;
-typedef struct { double val; double err; } gsl_sf_result;
-typedef struct { double (*function)(double, void *); void *params; } gsl_function;
+typedef struct { double val; double err; } bx_gsl_sf_result;
+typedef struct { double (*function)(double, void *); void *params; } bx_gsl_function;
 #define BX_SET_INT_MAX 8
 typedef struct bx_set_int_s { int v[BX_SET_INT_MAX]; int n; } bx_set_int;
 
@@ -134,11 +134,11 @@ static inline double bx_powi(double x, int n)
 }
 
 /* ---------- GSL and porcelain helpers called from plumbing code (assumed contracts) ------------ */
-int bx_ext_gsl_sf_lngamma_complex_e(double zr, double zi, gsl_sf_result *lnr, gsl_sf_result *arg);
+int bx_ext_gsl_sf_lngamma_complex_e(double zr, double zi, bx_gsl_sf_result *lnr, bx_gsl_sf_result *arg);
 double bx_ext_gsl_sf_gamma(double x);
 void *bx_ext_gsl_set_error_handler_off(void);
 void *bx_ext_gsl_set_error_handler(void *h);
-int bx_ext_gsl_integration_qng(const gsl_function *f, double a, double b, double epsabs, double epsrel,
+int bx_ext_gsl_integration_qng(const bx_gsl_function *f, double a, double b, double epsabs, double epsrel,
                                double *result, double *abserr, unsigned long *neval);
 const char *bx_ext_gsl_strerror(int);
 int dbd_mode_from_legacy_modebb(int legacy_modebb);   /* bb_utils.cc lookup; result feeds messages only */
